@@ -109,6 +109,7 @@ func runLCInBubble(t *testing.T, sc *LCScenario, ch sim.Chooser) []sim.Ev {
 	}
 	synctest.Wait()
 	base := sim.BubbleSet()
+	baseSubs := h.OpenSubscriptions()
 	add("Reset", "comp", sc.Comp, "variant", sc.Variant, "fail", sc.Fail, "nops", sc.NOps, "ncloses", sc.NCloses, "ts", 0)
 
 	b := make([]byte, 32)
@@ -350,13 +351,13 @@ func runLCInBubble(t *testing.T, sc *LCScenario, ch sim.Chooser) []sim.Ev {
 			time.Sleep(time.Millisecond)
 			synctest.Wait()
 		}
-		add("Construct", "err", errS(cerr), "panic", cpanic, "failwanted", sc.Fail != "", "left", lcLeft(base))
+		add("Construct", "err", errS(cerr), "panic", cpanic, "failwanted", sc.Fail != "", "left", lcLeft(base), "subsleft", h.OpenSubscriptions()-baseSubs)
 		_ = h.Close()
 		synctest.Wait()
 		add("End")
 		return tr.Events
 	}
-	add("Construct", "err", "", "panic", "", "failwanted", sc.Fail != "", "left", []string{})
+	add("Construct", "err", "", "panic", "", "failwanted", sc.Fail != "", "left", []string{}, "subsleft", 0)
 	armed = true
 
 	type opState struct {
@@ -554,7 +555,7 @@ func runLCInBubble(t *testing.T, sc *LCScenario, ch sim.Chooser) []sim.Ev {
 			kept = append(kept, l)
 		}
 	}
-	add("Quiesce", "hang", hang, "pending", pend, "left", kept)
+	add("Quiesce", "hang", hang, "pending", pend, "left", kept, "subsleft", h.OpenSubscriptions()-baseSubs)
 	for _, it := range gate.Pending() {
 		release(it, true)
 	}
